@@ -176,6 +176,36 @@ pub fn errno_name(e: i32) -> String {
 
 /// The parent's own descriptor layout: the standard descriptors in `mask` (bit s = descriptor s) are closed for as long
 /// as this value lives, and put back when it is dropped.  PROC_LOCK is held only while the layout is made and unmade.
+/// Keeps copies of the standard descriptors of this process and puts them back when dropped (whatever happened to
+/// the numbers 0..2 in between).
+pub struct StdSave(Vec<(i32, i32)>);
+
+impl StdSave {
+    pub fn make() -> StdSave {
+        let _g = inspect::proc_guard();
+        let mut v = vec![];
+        for s in 0..3 {
+            let keep = unsafe { libc::syscall(libc::SYS_fcntl, s, libc::F_DUPFD_CLOEXEC, 100) as i32 };
+            if keep >= 0 {
+                v.push((s, keep));
+            }
+        }
+        StdSave(v)
+    }
+}
+
+impl Drop for StdSave {
+    fn drop(&mut self) {
+        let _g = inspect::proc_guard();
+        for (s, keep) in self.0.drain(..) {
+            unsafe {
+                libc::syscall(libc::SYS_dup3, keep, s, 0);
+                libc::syscall(libc::SYS_close, keep);
+            }
+        }
+    }
+}
+
 pub struct StdHoles(Vec<(i32, i32)>);
 
 impl StdHoles {
